@@ -94,6 +94,9 @@ func (a *Analyzer) doCall(fr *frame, site ssa.Instruction, c *ssa.CallCommon, st
 			return statesOf(outs)
 		}
 	}
+	if traceFn != "" && strings.Contains(fn.Name(), traceFn) {
+		fmt.Printf("TRACECALL %s blocks=%d repo=%v pkg=%v origin=%v opaque=%v depth=%d instack=%v\n", fn.String(), len(fn.Blocks), a.P.IsRepoFunc(fn), fn.Package() != nil, fn.Origin() != nil, a.Opaque != nil && a.Opaque(fn), fr.depth, a.inStack(fn))
+	}
 	if a.OnCall != nil {
 		if ci, ok := site.(ssa.CallInstruction); ok {
 			a.OnCall(a, st, ci, fn, callArgs)
@@ -459,36 +462,107 @@ func (a *Analyzer) external(fr *frame, site ssa.Instruction, name string, sig *t
 	case "fmt.Sprintf":
 		return one(a.sprintf(st, sig, args))
 	case "fmt.Errorf", "errors.New":
-		return one(&Unknown{ID: a.id(), Typ: sig.Results().At(0).Type(), Desc: base, Nilness: nilNon})
+		u := &Unknown{ID: a.id(), Typ: sig.Results().At(0).Type(), Desc: base, Nilness: nilNon, ErrsExact: true}
+		if base == "fmt.Errorf" {
+			f, _ := args[0].(*Slice)
+			if f == nil || f.Base.Str == nil {
+				u.ErrsExact = false
+			} else if strings.Contains(*f.Base.Str, "%w") {
+				// wraps its error-typed operands
+				if len(args) > 1 {
+					if vs, ok := args[1].(*Slice); ok && vs.Base.Elems != nil {
+						for _, e := range vs.Base.Elems {
+							a.mergeErrs(u, e)
+						}
+					} else {
+						u.ErrsExact = false
+					}
+				}
+			}
+		}
+		if len(u.Errs) > 0 {
+			u.Desc = base + "(" + strings.Join(shortNames(u.Errs), ",") + ")"
+		}
+		return one(u)
+	case "errors.Is":
+		if len(args) == 2 {
+			tgt, _ := args[1].(*Unknown)
+			if _, isNil := args[0].(NilT); isNil {
+				return one(False)
+			}
+			if eu, ok := args[0].(*Unknown); ok && tgt != nil && tgt.ErrsExact && len(tgt.Errs) == 1 {
+				for _, e := range eu.Errs {
+					if e == tgt.Errs[0] {
+						return one(True)
+					}
+				}
+				if eu.ErrsExact {
+					return one(False)
+				}
+			}
+		}
+		return one(&Bool{Kind: BUnknown, ID: a.id(), Src: base})
 	case "errors.Join":
 		u := &Unknown{ID: a.id(), Typ: sig.Results().At(0).Type(), Desc: base}
 		if len(args) > 0 {
 			if vs, ok := args[0].(*Slice); ok && vs.Base.Elems != nil {
-				var wraps []string
+				u.ErrsExact = true
 				for _, e := range vs.Base.Elems {
 					if nilness(e) == nilNon {
 						u.Nilness = nilNon
 					}
-					if eu, ok := e.(*Unknown); ok && eu.Desc != "" && eu.Desc != "fmt.Errorf" {
-						wraps = append(wraps, eu.Desc)
-					}
+					a.mergeErrs(u, e)
 				}
-				u.Desc = "errors.Join(" + strings.Join(wraps, ",") + ")"
+				u.Desc = "errors.Join(" + strings.Join(shortNames(u.Errs), ",") + ")"
 			}
 		}
 		return one(u)
 	case "(*sync.Once).Do":
-		// the function runs at most once: explore both
-		skip := st.Clone()
-		outs := []retState{{skip, nil}}
-		if cl, ok := args[1].(*Closure); ok {
-			for _, s := range a.callClosure(fr, site, st, cl, nil) {
-				outs = append(outs, retState{s, nil})
+		// the function runs exactly once per Once value: a "done" mark is kept next to the
+		// Once object; when it is unknown (object of unknown history) both cases are explored
+		var doneLoc *Loc
+		done := 2 // 0 not yet, 1 done, 2 unknown
+		if op, ok := args[0].(*Ptr); ok && op.Obj != nil {
+			l := Loc{op.Obj.ID, op.Path + "#oncedone"}
+			doneLoc = &l
+			if v, ok := st.Heap[l]; ok {
+				if b, ok := v.(*Bool); ok && b.Kind == BConst {
+					if b.Val {
+						done = 1
+					} else {
+						done = 0
+					}
+				}
+			} else if a.freshObjs[op.Obj.ID] {
+				done = 0
 			}
-		} else {
-			outs = append(outs, retState{st, nil})
+		}
+		var outs []retState
+		if done != 0 {
+			skip := st
+			if done == 2 {
+				skip = st.Clone()
+			}
+			outs = append(outs, retState{skip, nil})
+		}
+		if done != 1 {
+			if doneLoc != nil {
+				st.Heap[*doneLoc] = True
+			}
+			if cl, ok := args[1].(*Closure); ok {
+				for _, s := range a.callClosure(fr, site, st, cl, nil) {
+					outs = append(outs, retState{s, nil})
+				}
+			} else {
+				outs = append(outs, retState{st, nil})
+			}
 		}
 		return outs
+	case "os.Exit", "log.Fatal", "log.Fatalf", "log.Fatalln", "(*log.Logger).Fatal", "(*log.Logger).Fatalf", "(*log.Logger).Fatalln", "runtime.Goexit":
+		a.obl("E1.exit", fr.fn, site, "", false, func() string {
+			return "call that terminates the process (or goroutine) is reachable: " + base + "\n" + st.Describe()
+		})
+		return nil
 	case "sort.Slice", "sort.SliceStable":
 		var rng *Slice
 		if ifc, ok := args[0].(*Iface); ok {
@@ -761,6 +835,9 @@ func (a *Analyzer) invokeUnknown(fr *frame, site ssa.Instruction, c *ssa.CallCom
 	}
 	var outs []*State
 	alts := append([]types.Type{nil}, impls...)
+	if a.NoExternalImpl != nil && a.NoExternalImpl(c.Value.Type()) {
+		alts = impls // default configuration: only the repository's own implementations
+	}
 	for i, t := range alts {
 		s := st
 		if i < len(alts)-1 {
@@ -776,4 +853,38 @@ func (a *Analyzer) invokeUnknown(fr *frame, site ssa.Instruction, c *ssa.CallCom
 		outs = append(outs, run(s, t)...)
 	}
 	return outs, true
+}
+
+
+// mergeErrs adds the sentinel provenance of error value e to u.
+func (a *Analyzer) mergeErrs(u *Unknown, e Term) {
+	if ifc, ok := e.(*Iface); ok {
+		e = ifc.Val
+	}
+	switch v := e.(type) {
+	case NilT:
+	case *Unknown:
+		// only error-typed operands matter for wrapping
+		if v.Typ != nil {
+			if _, isIface := v.Typ.Underlying().(*types.Interface); !isIface {
+				return
+			}
+		}
+		u.Errs = append(u.Errs, v.Errs...)
+		if !v.ErrsExact {
+			u.ErrsExact = false
+		}
+	case Int, *Slice, *Bool:
+		// non-error operand of a format string
+	default:
+		u.ErrsExact = false
+	}
+}
+
+func shortNames(xs []string) []string {
+	out := make([]string, len(xs))
+	for i, x := range xs {
+		out[i] = x[strings.LastIndexAny(x, "./")+1:]
+	}
+	return out
 }
